@@ -335,7 +335,7 @@ pub fn run(ctx: &Ctx) -> PropResult {
     let max_len = if ctx.thorough { 15 } else { 12 };
     let shorts = short_streams(max_len);
     let ns: Vec<usize> = (1..=16).chain([24, 32, 64]).collect();
-    let mut all: Vec<&'static IfaceDesc> = vec![mini, ctx.iface("pzoo")];
+    let mut all: Vec<&'static IfaceDesc> = ctx.built(&["mini", "pzoo"]);
     all.extend(ctx.random_ifaces());
     let rand_shards = 64usize;
     let rand_cases = ctx.scaled(if ctx.thorough { 100_000 } else { 8_000 });
